@@ -136,6 +136,11 @@ func runC07(c *Ctx, r *Report, tier string) {
 		opt := "idx(Group.options(P0), "
 		switch m {
 		case "lookup.longNames":
+			// only options that HAVE a long name enter the long-name table (the namespace prefix alone is not a name)
+			if flCl != nil {
+				_, hasName := c.Requires(flCl, isInstr(u.in), litHas(true, "nonempty(Option.LongName("+opt), nil)
+				r.Check(hasName, "TABLES", u.fn, "long-name table only for options with a long name", c.ipos(u.in), "insert REQ(len(option.LongName) > 0)", "an option without a long name is entered in the long-name table (under its bare namespace prefix)")
+			}
 			ok := flCl != nil && c.actsFor(u.in.Parent(), flCl) && strings.HasPrefix(u.key, "call:(*Option).LongNameWithNamespace("+opt) && strings.HasPrefix(u.val, opt)
 			r.Check(ok, "TABLES", u.fn, "longNames[LongNameWithNamespace(o)] = o", c.ipos(u.in), "keyed by the namespaced long name of the stored option, untransformed", "longNames["+trunc(u.key, 80)+"] = "+trunc(u.val, 60))
 		case "lookup.shortNames":
@@ -200,11 +205,30 @@ func runC07(c *Ctx, r *Report, tier string) {
 
 	// ---- POLICY
 	pn := c.fname(pa)
+	// what the handler is told about the inline argument: absent exactly when there was none (nil), an
+	// empty `--name=` is present and empty
+	if sv := c.mustFn(r, "(strArgument).Value"); sv != nil {
+		for _, ret := range returnsOf(sv) {
+			if c.term(ret.Results[1]) != "false" {
+				continue
+			}
+			var extra []string
+			for _, d := range c.controlDeps(sv, ret.Block()) {
+				if l, ok := c.edgeLit(d.B, d.Succ); ok && !(strings.HasPrefix(l.Term, "nonnil(strArgument.value(") && !l.Pos) {
+					extra = append(extra, l.String())
+				}
+			}
+			r.Check(len(extra) == 0, "POLICY", c.fname(sv), "inline argument reported absent only when there is none", c.ipos(ret), "return (\"\", false) only under value == nil", "the argument is also reported absent under "+strings.Join(extra, "; ")+": an empty inline argument (`--name=`) is hidden from the handler")
+		}
+	}
 	hcalls := c.instrs(pa, c.isDynCallVia("Parser.UnknownOptionHandler("))
 	r.Check(len(hcalls) == 1, "POLICY", pn, "one handler call site", c.pos(pa.Pos()), "one", fmt.Sprintf("%d", len(hcalls)))
 	argsF := c.mustField(r, "parseState", "args")
 	errF := c.mustField(r, "parseState", "err")
 	for _, h := range hcalls {
+		// IgnoreUnknown has precedence: with the option set the token is passed through, the handler is not asked
+		_, prec := c.Requires(pa, isInstr(h), litHas(false, "nonzero((Parser.Options(P0) & IgnoreUnknown))"), nil)
+		r.Check(prec, "POLICY", pn, "IgnoreUnknown takes precedence over the handler", c.ipos(h), "handler call REQ(¬IgnoreUnknown)", "with IgnoreUnknown set and a handler installed the handler is consulted and the unknown token is not passed through")
 		call := h.(*ssa.Call)
 		a := call.Call.Args
 		t0, t2 := c.term(a[0]), c.term(a[2])
